@@ -113,6 +113,7 @@ func checkC16(c *Ctx) {
 		ruleRaces(c, la, "R16.1")
 		ruleLockOrder(c, la, "R16.4")
 	}
+	ruleLockBalance(c, pkgDevice, "R16.6")
 	ruleStructuredTermination(c, dv)
 	ruleCancelAwareWaits(c, dv)
 	ruleNoCrossTalk(c, dv)
@@ -608,7 +609,20 @@ func ruleNoCrossTalk(c *Ctx, dv *dev) {
 			continue
 		}
 		if isFresh(v, map[ssa.Value]bool{}) {
-			c.OK("R16.5", key, c.P.Pos(v.Pos()), "created with make/&T{} inside NewDevice")
+			// reference-typed elements put into the fresh container must be fresh as well
+			stale := ""
+			for _, b := range nd.Blocks {
+				for _, in := range b.Instrs {
+					if mu, ok := in.(*ssa.MapUpdate); ok && mu.Map == v && isRefType(mu.Value.Type()) && !isFresh(mu.Value, map[ssa.Value]bool{}) {
+						stale = c.P.Pos(mu.Pos())
+					}
+				}
+			}
+			if stale != "" {
+				c.Bad("R16.5", key, stale, "the container is fresh but a reference-typed element stored into it is not created inside NewDevice (e.g. copied from a package-level template): the inner maps are shared by all devices")
+			} else {
+				c.OK("R16.5", key, c.P.Pos(v.Pos()), "created with make/&T{} inside NewDevice")
+			}
 		} else {
 			c.Bad("R16.5", key, c.P.Pos(v.Pos()), "field is initialised from a value that is not created inside NewDevice: two devices could share it")
 		}
@@ -751,4 +765,114 @@ func controlsC16(p *Program) []controlResult {
 		res = append(res, controlResult{"R16.1 lockset control " + name, (races > 0) == want, fmt.Sprintf("races=%d (expected race: %v)", races, want)})
 	}
 	return res
+}
+
+// lockBalance: forward may-held analysis per mutex; reports returns reachable with a lock
+// still held (no deferred unlock) and Lock calls reachable while the same lock may be held.
+func lockBalance(fn *ssa.Function) (leaks, relocks []ssa.Instruction) {
+	deferred := map[string]bool{}
+	for _, b := range fn.Blocks {
+		for _, in := range b.Instrs {
+			if d, ok := in.(*ssa.Defer); ok {
+				if op, name := mutexOp(&d.Call); op == "unlock" {
+					deferred[name] = true
+				}
+			}
+		}
+	}
+	out := map[*ssa.BasicBlock]lockset{}
+	changed := true
+	for iter := 0; changed && iter < 50; iter++ {
+		changed = false
+		for _, b := range fn.Blocks {
+			cur := lockset{}
+			for _, p := range b.Preds {
+				for k := range out[p] {
+					cur[k] = true
+				}
+			}
+			for _, in := range b.Instrs {
+				if call, ok := in.(*ssa.Call); ok {
+					if op, name := mutexOp(&call.Call); op == "lock" {
+						cur[name] = true
+					} else if op == "unlock" {
+						delete(cur, name)
+					}
+				}
+			}
+			if cur.key() != out[b].key() {
+				out[b] = cur
+				changed = true
+			}
+		}
+	}
+	for _, b := range fn.Blocks {
+		cur := lockset{}
+		for _, p := range b.Preds {
+			for k := range out[p] {
+				cur[k] = true
+			}
+		}
+		for _, in := range b.Instrs {
+			switch x := in.(type) {
+			case *ssa.Call:
+				if op, name := mutexOp(&x.Call); op == "lock" {
+					if cur[name] {
+						relocks = append(relocks, in)
+					}
+					cur[name] = true
+				} else if op == "unlock" {
+					delete(cur, name)
+				}
+			case *ssa.Return:
+				if b == fn.Recover {
+					continue
+				}
+				for k := range cur {
+					if !deferred[k] {
+						leaks = append(leaks, in)
+					}
+				}
+			}
+		}
+	}
+	return
+}
+
+// ruleLockBalance: every Lock is released on every path (R16.6).
+func ruleLockBalance(c *Ctx, pkgPath, rule string) {
+	n := 0
+	for _, fn := range c.P.Funcs {
+		top := topFunc(fn)
+		if top.Pkg == nil || top.Pkg.Pkg.Path() != pkgPath {
+			continue
+		}
+		locks := false
+		for _, b := range fn.Blocks {
+			for _, in := range b.Instrs {
+				if call, ok := in.(*ssa.Call); ok {
+					if op, _ := mutexOp(&call.Call); op == "lock" {
+						locks = true
+					}
+				}
+			}
+		}
+		if !locks {
+			continue
+		}
+		n++
+		key := shortFn(fn) + "/every-lock-released"
+		leaks, relocks := lockBalance(fn)
+		switch {
+		case len(relocks) > 0:
+			c.Bad(rule, key, c.P.Pos(relocks[0].Pos()), "a path reaches this Lock() while the same mutex may still be held (an earlier path skipped its Unlock, e.g. by `continue`/`break`/early return): the goroutine deadlocks on itself and the device can never finish")
+		case len(leaks) > 0:
+			c.Bad(rule, key, c.P.Pos(leaks[0].Pos()), "a return is reachable with the mutex still locked (no deferred Unlock): every other user of the mutex blocks forever")
+		default:
+			c.OK(rule, key, c.P.Pos(fn.Pos()), "every Lock is followed by its Unlock on all paths (or the Unlock is deferred)")
+		}
+	}
+	if n == 0 {
+		c.Undec(rule, "lock-balance/"+pkgPath, "-", "no locking function found")
+	}
 }
